@@ -362,4 +362,127 @@ theorem traceGroups_getElem? (s : Suite) (b : Int) (gs : List (List (Nat × Row)
         | some e => simp at hk
         | none => simp only at hk ⊢; exact ih s1 k hk
 
+/-! ### the parse ids of a run -/
+
+theorem dget_append (a b : Dict) (k : String) :
+    dget (a ++ b) k = (dget b k).or (dget a k) := by
+  unfold dget
+  rw [List.reverse_append, List.find?_append]
+  cases (b.reverse.find? fun p => p.1 == k) <;> simp
+
+theorem dget_pick_none (keys : List String) (d : Dict) (k : String) (h : k ∉ keys) : dget (pick keys d) k = none := by
+  unfold dget
+  rw [Option.map_eq_none_iff, List.find?_eq_none]
+  intro x hx
+  simp only [List.mem_reverse] at hx
+  unfold pick at hx
+  rw [List.mem_filterMap] at hx
+  obtain ⟨k', hk', hxk⟩ := hx
+  cases hd : dget d k' with
+  | none => rw [hd] at hxk; simp at hxk
+  | some v =>
+    rw [hd] at hxk
+    simp only [Option.map_some, Option.some.injEq] at hxk
+    subst hxk
+    simp only [beq_iff_eq]
+    intro hh
+    exact h (hh ▸ hk')
+
+theorem parse_id_not_parse_key : "parse-id" ∉ c10ParseKeys := by decide
+
+/-- the patch `_map_parse` returns carries the new parse id in its `parse-id` entry -/
+theorem mapParse_patch_pid (st : MState) (keys : Dict) (r : Resp) (patch : Dict) (pid : Int)
+    (h : mapParse st keys r = .ok (patch, pid)) : dget patch "parse-id" = some (encInt pid) := by
+  unfold mapParse at h
+  split at h
+  · cases h
+  simp only [Except.ok.injEq, Prod.mk.injEq] at h
+  obtain ⟨hp, hpid⟩ := h
+  subst hp
+  rw [dget_append, dget_pick_none _ _ _ parse_id_not_parse_key]
+  simp only [Option.none_or]
+  rw [← hpid]
+  simp [dget]
+
+/-- BRIDGE: the `parse-id` entries of the transactions a run produces are exactly `parseIds` of the item
+ids, starting from the mapper's current `_parse_id` -/
+theorem mapItems_parse_ids (inFields : List FieldS) (script : List Resp) (st st' : MState) (pos : Nat)
+    (items : List Row) (txs : List (List (String × Dict)))
+    (h : mapItems inFields script st pos items = (txs, st', none)) :
+    txs.map parsePidCell = (parseIds st.parseId (items.map (itemId inFields))).map (fun p => some (encInt p)) := by
+  induction items generalizing st pos txs with
+  | nil => simp [mapItems] at h; obtain ⟨rfl, _⟩ := h; rfl
+  | cons item items ih =>
+    unfold mapItems at h
+    split at h
+    · simp at h
+    rename_i r _
+    split at h
+    · simp at h
+    split at h
+    · simp at h
+    rename_i st1 tx hm
+    cases hrest : mapItems inFields script st1 (pos + 1) items with
+    | mk txs1 rest =>
+      obtain ⟨st2, e⟩ := rest
+      rw [hrest] at h
+      simp only [Prod.mk.injEq] at h
+      obtain ⟨rfl, rfl, rfl⟩ := h
+      obtain ⟨patch, pid, edges, hp, _, _, rfl⟩ := mapResponse_ok st st1 _ r tx hm
+      obtain ⟨iid, hiid, hpid⟩ := mapResponse_parseId st st1 _ r _ hm
+      have hpp := mapParse_patch_pid st _ r patch pid hp
+      have hpid' : pid = max (st.parseId + 1) iid := by
+        unfold mapParse intCell at hp
+        rw [hiid] at hp
+        simp only [Except.ok.injEq, Prod.mk.injEq] at hp
+        exact hp.2.symm
+      have hitem : itemId inFields item = iid := by simp [itemId, hiid]
+      have := ih st1 (pos + 1) txs1 hrest
+      simp only [List.map_cons, parseIds, hitem, ← hpid', ← hpid]
+      rw [this, hpid, ← hpid']
+      simp [parsePidCell, hpp]
+
+/-- the rows `produceItems` yields are the `make_record` images of those transactions -/
+theorem produceItems_mapItems (sch : Schema) (inFields : List FieldS) (script : List Resp) (st st' : MState)
+    (pos : Nat) (items : List Row) (gs : List (List (Nat × Row)))
+    (h : produceItems sch inFields script st pos items = (gs, st', none)) :
+    ∃ txs, mapItems inFields script st pos items = (txs, st', none)
+      ∧ gs = txs.map (fun tx => (toRows sch tx).1) := by
+  induction items generalizing st pos gs with
+  | nil => simp [produceItems] at h; obtain ⟨rfl, rfl⟩ := h; exact ⟨[], rfl, rfl⟩
+  | cons item items ih =>
+    unfold produceItems at h
+    unfold mapItems
+    split at h
+    · simp at h
+    rename_i r hr
+    split at h
+    · simp at h
+    rename_i hres
+    rw [if_neg hres]
+    split at h
+    · simp at h
+    rename_i st1 tx hm
+    split at h
+    · simp at h
+    rename_i rows hrows
+    cases hrest : produceItems sch inFields script st1 (pos + 1) items with
+    | mk gs1 rest =>
+      obtain ⟨st2, e⟩ := rest
+      rw [hrest] at h
+      simp only [Prod.mk.injEq] at h
+      obtain ⟨rfl, rfl, rfl⟩ := h
+      obtain ⟨txs, hmi, hgs⟩ := ih st1 (pos + 1) gs1 hrest
+      rw [hmi]
+      exact ⟨tx :: txs, rfl, by simp [hgs, hrows]⟩
+
+/-- … and `make_record` puts that entry into the `parse-id` column unchanged -/
+theorem makeRecord_cell (fields : List FieldS) (d : Dict) (j : Nat) (f : FieldS) (c : Nat)
+    (hf : fields[j]? = some f) (hd : dget d f.name = some c) (hc : c ≠ cNone) :
+    (makeRecord fields d)[j]? = some c := by
+  unfold makeRecord
+  rw [List.getElem?_map, hf]
+  simp [hd, hc]
+
+
 end Verif.C10.L
